@@ -3,7 +3,8 @@
      SendIsoAddressClaim(dest, iDev, delay)          SendProductInformation(iDev)          SendConfigurationInformation(iDev)
      SendTxPGNList(dest, iDev, UseTP)                SendRxPGNList(dest, iDev, UseTP)      SendHeartbeat(bool force)   SendHeartbeat(int iDev)
      SetDeviceInformationInstances(lo, up, sys, iDev) SetDeviceInformation(unique, function, class, manufacturer, industry, iDev)
-     Restart()
+     Restart()                                       SetMode(mode, source) after initialisation
+     SetSingleFrameMessages / ExtendSingleFrameMessages / SetFastPacketMessages / ExtendFastPacketMessages (any time)
    Each is a composition of functions the node model already has (they are what the library's own handlers call), behind the guards
    the public entry points apply (IsValidDevice, "broadcast and device -1 means device 0").  A sending call made before the node is
    open reaches Open() through SendMsg (NodeDefs.send_gate leaves that to its callers): [open_first] stands at exactly the place where
@@ -11,7 +12,7 @@
    of NodeRxDefs by these calls without touching [rop], so every theorem about [rstep] / [rrun] stays as it is; Proofs/Api*.v lift the
    node-level theorems to [xrun].  Definitions only. *)
 From Coq Require Import ZArith List Bool.
-From N2kV Require Import Base.ListAux Model.CanId Model.Sched Model.PgnClass Model.NodeDefs Model.NodeRxDefs Model.GroupFnDefs Gen.GenTables Gen.GenConsts.
+From N2kV Require Import Base.ListAux Model.CanId Model.Sched Model.PgnClass Model.NodeDefs Model.NodeRxDefs Model.GroupFnDefs Model.SetModeDefs Gen.GenTables Gen.GenConsts.
 Import ListNotations.
 Local Open Scope Z_scope.
 
@@ -72,6 +73,31 @@ Fixpoint send_heartbeat_api (force:bool) (k:nat) (r:rnode) (i:Z) : rnode * list 
   | S k' => let '(r1, ev1) := send_heartbeat_api_dev force r i in let '(r2, ev2) := send_heartbeat_api force k' r1 (i+1) in (r2, ev1 ++ ev2)
   end.
 
+(* SetMode(mode, source) on a node whose device table exists: the mode, every device's address (source + i, wrapped as at
+   initialisation) and search end are overwritten, nothing is announced, and the address-changed indication is cleared *)
+Fixpoint set_mode_srcs (k:nat) (r:rnode) (src i:Z) : rnode :=
+  match k with
+  | O => r
+  | S k' => set_mode_srcs k' (set_src r i (set_mode_src src i) true) src (i+1)
+  end.
+Definition set_mode_api (r:rnode) (mode src:Z) : rnode :=
+  let r1 := set_mode_srcs (length (n_devs (rn r))) r src 0 in
+  let n := rn r1 in
+  with_rn r1 {| n_w64 := n_w64 n; n_mode := mode; n_open := n_open n; n_now := n_now n; n_pgn := n_pgn n; n_devs := n_devs n; n_q := n_q n; n_drv := n_drv n;
+                n_addr_changed := false |}.
+
+(* Set/Extend SingleFrame/FastPacket Messages: which = 0 (SingleFrameMessages[0]), 1 (SingleFrameMessages[1]), 2 (FastPacketMessages[0]),
+   3 (FastPacketMessages[1]); the library keeps the pointer, the model the list *)
+Definition set_pgn_list (r:rnode) (which:Z) (l:list Z) : rnode :=
+  let n := rn r in let c := n_pgn n in
+  let c' := if which =? 0 then {| sf0 := Some l; sf1 := sf1 c; fp0 := fp0 c; fp1 := fp1 c |}
+            else if which =? 1 then {| sf0 := sf0 c; sf1 := Some l; fp0 := fp0 c; fp1 := fp1 c |}
+            else if which =? 2 then {| sf0 := sf0 c; sf1 := sf1 c; fp0 := Some l; fp1 := fp1 c |}
+            else if which =? 3 then {| sf0 := sf0 c; sf1 := sf1 c; fp0 := fp0 c; fp1 := Some l |}
+            else c in
+  with_rn r {| n_w64 := n_w64 n; n_mode := n_mode n; n_open := n_open n; n_now := n_now n; n_pgn := c'; n_devs := n_devs n; n_q := n_q n; n_drv := n_drv n;
+               n_addr_changed := n_addr_changed n |}.
+
 Inductive api : Type :=
 | ASendClaim (dst idev delay:Z)
 | ASendProd (idev:Z)
@@ -82,7 +108,9 @@ Inductive api : Type :=
 | ASendHeartbeatDev (idev:Z)
 | ASetInstances (idev lo up si:Z)
 | ASetDeviceInformation (idev uniq func cls manuf ind:Z)
-| ARestart.
+| ARestart
+| ASetMode (mode src:Z)
+| ASetPgnList (which:Z) (l:list Z).
 
 Definition api_step (r:rnode) (a:api) : rnode * list event :=
   match a with
@@ -107,6 +135,8 @@ Definition api_step (r:rnode) (a:api) : rnode * list event :=
   | ASetInstances idev lo up si => if valid_dev r idev then (set_instances r idev lo up si, []) else (r, [])
   | ASetDeviceInformation idev uniq func cls manuf ind => (set_device_information r idev uniq func cls manuf ind, [])
   | ARestart => start_claim_all (length (n_devs (rn r))) r 0
+  | ASetMode mode src => (set_mode_api r mode src, [])
+  | ASetPgnList which l => (set_pgn_list r which l, [])
   end.
 
 Inductive xop : Type :=
